@@ -75,9 +75,9 @@ theorem shadow_inv_partial (cfg : Cfg) (toplevel : Bool) (m0 : VModes) (ops : Li
   have h := after_inv cfg toplevel m0 ops .running hm0 hv hnt
   exact modesShown_of cfg _ _ _ (h.shown rfl) h.ghost
 
-theorem shadow_inv (cfg : Cfg) (hk : cfg.keypadRecorded = true) (hr : cfg.repliesGuarded = true) : ShadowInv cfg :=
+theorem shadow_inv (cfg : Cfg) (hk : cfg.keypadRecorded = true) (hr : cfg.repliesGuarded = true) (hq : cfg.rgb8Guarded = true) : ShadowInv cfg :=
   fun toplevel m0 ops hm0 hv =>
-    shadow_inv_partial cfg toplevel m0 ops hm0 hv (triggerFree_of_repaired cfg hk hr toplevel ops)
+    shadow_inv_partial cfg toplevel m0 ops hm0 hv (triggerFree_of_repaired cfg hk hr hq toplevel ops)
 
 /-- **resume_reestablishes.** A pause/resume cycle appended to a history that left the terminal running
     ends with the terminal's modes equal to the values last set before the pause: resume re-establishes
@@ -99,10 +99,10 @@ theorem resume_reestablishes_partial (cfg : Cfg) (toplevel : Bool) (m0 : VModes)
     unfold ghostAfter; rw [ghostRun_append]; rfl
   rwa [hg] at h
 
-theorem resume_reestablishes (cfg : Cfg) (hk : cfg.keypadRecorded = true) (hr : cfg.repliesGuarded = true) :
+theorem resume_reestablishes (cfg : Cfg) (hk : cfg.keypadRecorded = true) (hr : cfg.repliesGuarded = true) (hq : cfg.rgb8Guarded = true) :
     ResumeReestablishes cfg :=
   fun toplevel m0 ops hm0 hv =>
-    resume_reestablishes_partial cfg toplevel m0 ops hm0 hv (triggerFree_of_repaired cfg hk hr toplevel ops)
+    resume_reestablishes_partial cfg toplevel m0 ops hm0 hv (triggerFree_of_repaired cfg hk hr hq toplevel ops)
 
 /-! ### `teardown_restores` -/
 
@@ -128,10 +128,10 @@ theorem teardown_restores_partial (cfg : Cfg) (toplevel : Bool) (m0 : VModes) (o
   · obtain ⟨ho, ha⟩ := destroy_off cfg _ _ ph _ h
     exact restoredOk_of _ m0 h0 ho ha
 
-theorem teardown_restores (cfg : Cfg) (hk : cfg.keypadRecorded = true) (hr : cfg.repliesGuarded = true) :
+theorem teardown_restores (cfg : Cfg) (hk : cfg.keypadRecorded = true) (hr : cfg.repliesGuarded = true) (hq : cfg.rgb8Guarded = true) :
     TeardownRestores cfg :=
   fun toplevel m0 ops ph hm0 hv =>
-    teardown_restores_partial cfg toplevel m0 ops ph hm0 hv (triggerFree_of_repaired cfg hk hr toplevel ops)
+    teardown_restores_partial cfg toplevel m0 ops ph hm0 hv (triggerFree_of_repaired cfg hk hr hq toplevel ops)
 
 /-! ### `getctl_last_set` -/
 
@@ -146,9 +146,9 @@ theorem getctl_last_set_partial (cfg : Cfg) (toplevel : Bool) (ops : List Op) (p
     getctlOk (sysAfter cfg toplevel ops).term.drv (ghostAfter cfg toplevel ops) = true :=
   getctlOk_of cfg _ _ (after_inv cfg toplevel {} ops ph rfl hv hnt).ghost
 
-theorem getctl_last_set (cfg : Cfg) (hk : cfg.keypadRecorded = true) (hr : cfg.repliesGuarded = true) :
+theorem getctl_last_set (cfg : Cfg) (hk : cfg.keypadRecorded = true) (hr : cfg.repliesGuarded = true) (hq : cfg.rgb8Guarded = true) :
     GetctlLastSet cfg :=
-  fun toplevel ops ph hv => getctl_last_set_partial cfg toplevel ops ph hv (triggerFree_of_repaired cfg hk hr toplevel ops)
+  fun toplevel ops ph hv => getctl_last_set_partial cfg toplevel ops ph hv (triggerFree_of_repaired cfg hk hr hq toplevel ops)
 
 /-! ### the unrepaired tree: counterexamples (the hypotheses above are necessary) -/
 
@@ -157,60 +157,83 @@ theorem getctl_last_set (cfg : Cfg) (hk : cfg.keypadRecorded = true) (hr : cfg.r
 def keypadHistory : List Op := [.ctl (some .keypadApp) 1]
 
 set_option maxRecDepth 8000 in
-theorem teardown_restores_counterexample_keypad (p u r : Bool) : ¬ TeardownRestores ⟨false, p, u, r⟩ := by
+theorem teardown_restores_counterexample_keypad (p u r q : Bool) : ¬ TeardownRestores ⟨false, p, u, r, q⟩ := by
   intro h
   have h1 := (h false {} keypadHistory .running rfl rfl).2
   revert h1
-  cases p <;> cases u <;> cases r <;> decide
+  cases p <;> cases u <;> cases r <;> cases q <;> decide
 
 set_option maxRecDepth 8000 in
 /-- … and through the toplevel instance: `tick; unref` (what `t/60tickit-setup.c` pins). -/
-theorem teardown_restores_counterexample_setup (p u r : Bool) : ¬ TeardownRestores ⟨false, p, u, r⟩ := by
+theorem teardown_restores_counterexample_setup (p u r q : Bool) : ¬ TeardownRestores ⟨false, p, u, r, q⟩ := by
   intro h
   have h1 := (h true {} [.tick false] .running rfl rfl).2
   revert h1
-  cases p <;> cases u <;> cases r <;> decide
+  cases p <;> cases u <;> cases r <;> cases q <;> decide
 
 set_option maxRecDepth 8000 in
-theorem getctl_last_set_counterexample_keypad (p u r : Bool) : ¬ GetctlLastSet ⟨false, p, u, r⟩ := by
+theorem getctl_last_set_counterexample_keypad (p u r q : Bool) : ¬ GetctlLastSet ⟨false, p, u, r, q⟩ := by
   intro h
   have h1 := h false keypadHistory .running rfl
   revert h1
-  cases p <;> cases u <;> cases r <;> decide
+  cases p <;> cases u <;> cases r <;> cases q <;> decide
 
 /-- Replies not guarded: `ctl cursorvis 0; <DECRPM ?25;1$y arrives>; unref` leaves the cursor hidden,
     and the control reads 1 after 0 was set. -/
 def lateReplyHistory : List Op := [.ctl (some .cursorvis) 0, .replyMode 25 1]
 
 set_option maxRecDepth 8000 in
-theorem teardown_restores_counterexample_late_reply (k p u : Bool) : ¬ TeardownRestores ⟨k, p, u, false⟩ := by
+theorem teardown_restores_counterexample_late_reply (k p u q : Bool) : ¬ TeardownRestores ⟨k, p, u, false, q⟩ := by
   intro h
   have h1 := (h false {} lateReplyHistory .running rfl rfl).2
   revert h1
-  cases k <;> cases p <;> cases u <;> decide
+  cases k <;> cases p <;> cases u <;> cases q <;> decide
 
 set_option maxRecDepth 8000 in
 /-- After the late reply the shadow says "visible" while the terminal's cursor is hidden: the next
     `ctl cursorvis 1` is taken for redundant and writes nothing, so the terminal and the value last set differ
     while running. -/
-theorem shadow_inv_counterexample_late_reply (k p u : Bool) : ¬ ShadowInv ⟨k, p, u, false⟩ := by
+theorem shadow_inv_counterexample_late_reply (k p u q : Bool) : ¬ ShadowInv ⟨k, p, u, false, q⟩ := by
   intro h
   have h1 := h false {} (lateReplyHistory ++ [.ctl (some .cursorvis) 1]) rfl rfl
   revert h1
-  cases k <;> cases p <;> cases u <;> decide
+  cases k <;> cases p <;> cases u <;> cases q <;> decide
 
 set_option maxRecDepth 8000 in
-theorem getctl_last_set_counterexample_late_reply (k p u : Bool) : ¬ GetctlLastSet ⟨k, p, u, false⟩ := by
+theorem getctl_last_set_counterexample_late_reply (k p u q : Bool) : ¬ GetctlLastSet ⟨k, p, u, false, q⟩ := by
   intro h
   have h1 := h false lateReplyHistory .running rfl
   revert h1
-  cases k <;> cases p <;> cases u <;> decide
+  cases k <;> cases p <;> cases u <;> cases q <;> decide
+
+/-- Forced RGB8 capability not guarded (the working tree as found): the program switches 24-bit colours off
+    through `xterm.cap_rgb8` ("the calling program has a better idea than our probing"), then the terminal's
+    answer to the start-up SGR query arrives and switches them on again; the control reads 1 after 0 was set. -/
+def forcedRgb8History : List Op := [.ctl (some .capRgb8) 0, .replySgr false true]
+
+set_option maxRecDepth 8000 in
+theorem getctl_last_set_counterexample_forced_rgb8 (k p u r : Bool) : ¬ GetctlLastSet ⟨k, p, u, r, false⟩ := by
+  intro h
+  have h1 := h false forcedRgb8History .running rfl
+  revert h1
+  cases k <;> cases p <;> cases u <;> cases r <;> decide
+
+example : validFrom .running forcedRgb8History = some .running ∧
+    ¬ TriggerFree ⟨true, true, true, true, false⟩ false forcedRgb8History ∧
+    TriggerFree ⟨true, true, true, true, true⟩ false forcedRgb8History := by decide
+
+/-- **forced_rgb8_survives_late_reply.** With the guard, whatever the driver's state: the capability the
+    program has forced is what the control reads after the terminal's SGR report has arrived. -/
+theorem forced_rgb8_survives_late_reply (cfg : Cfg) (hq : cfg.rgb8Guarded = true) (d : XDrv) (v : Int) (colon rgb : Bool) :
+    getctlInt (onDecrqssSgr cfg (setctlInt cfg d (some .capRgb8) v).1 colon rgb) (some .capRgb8) = some (bool01 v) := by
+  have hw : ((wrapU ModeLayout.w_cap_rgb8 (bool01 v) : Nat) : Int) = bool01 v := wrapU1_bool_int v
+  simp [setctlInt, onDecrqssSgr, getctlInt, hq, hw]
 
 /-- The triggers are exactly what the partial theorems exclude: both counterexample histories are
     inside the contract and are *not* trigger-free for the unrepaired variants. -/
-example : validFrom .running keypadHistory = some .running ∧ ¬ TriggerFree ⟨false, true, true, true⟩ false keypadHistory := by
+example : validFrom .running keypadHistory = some .running ∧ ¬ TriggerFree ⟨false, true, true, true, true⟩ false keypadHistory := by
   decide
-example : validFrom .running lateReplyHistory = some .running ∧ ¬ TriggerFree ⟨true, true, true, false⟩ false lateReplyHistory := by
+example : validFrom .running lateReplyHistory = some .running ∧ ¬ TriggerFree ⟨true, true, true, false, true⟩ false lateReplyHistory := by
   decide
 
 /-! ### non-vacuity: a non-trivial history inside the contract, for both kinds of terminal -/
@@ -234,14 +257,14 @@ example : (vtAfter Cfg.repaired false {} sampleHistory).modes.mouse = 1003 ∧
 
 /-- … and the theorems apply to it. -/
 example : modesShown (vtAfter Cfg.repaired false {} sampleHistory).modes (ghostAfter Cfg.repaired false sampleHistory) = true :=
-  shadow_inv Cfg.repaired rfl rfl false {} sampleHistory rfl (by decide)
+  shadow_inv Cfg.repaired rfl rfl rfl false {} sampleHistory rfl (by decide)
 example : restoredOk (VT.feed (vtAfter Cfg.repaired true {} sampleHistory) (sysAfter Cfg.repaired true sampleHistory).destroy) {} = true :=
-  (teardown_restores Cfg.repaired rfl rfl true {} sampleHistory .running rfl (by decide)).2
+  (teardown_restores Cfg.repaired rfl rfl rfl true {} sampleHistory .running rfl (by decide)).2
 example : getctlOk (sysAfter Cfg.repaired false sampleHistory).term.drv (ghostAfter Cfg.repaired false sampleHistory) = true :=
-  getctl_last_set Cfg.repaired rfl rfl false sampleHistory .running (by decide)
+  getctl_last_set Cfg.repaired rfl rfl rfl false sampleHistory .running (by decide)
 /-- The partial theorems are not vacuous on the tree as found: a history with mouse, cursor and
     alternate screen but no keypad and prompt replies is trigger-free. -/
-example : TriggerFree ⟨false, false, false, false⟩ false
+example : TriggerFree ⟨false, false, false, false, false⟩ false
     [.replyMode 25 1, .ctl (some .altscreen) 1, .ctl (some .cursorvis) 0, .ctl (some .mouse) 1, .pause, .resume] := by decide
 
 /-! ### `pen_survives_pause` -/
@@ -249,49 +272,55 @@ example : TriggerFree ⟨false, false, false, false⟩ false
 /-- **pen_survives_pause** (full statement). After every history inside the contract that leaves the
     terminal running - whatever pause/resume cycles it contains - the terminal renders with the pen the
     program asked for: every attribute named by `setpen`/`chpen` since the terminal was built has, on the
-    terminal, the value last asked for (`Modes.logicalPen`), so that is what later drawing is rendered with. -/
+    terminal, the value last asked for (`Modes.logicalPen`), so that is what later drawing is rendered with.
+    Colours may carry RGB8 refinements: on a terminal whose RGB8 capability is on (probed or forced) the
+    terminal renders the 24-bit colour, otherwise the palette index (`Modes.sem`).  `CapKept`: the capability
+    is not changed while the pen holds a colour that depends on it. -/
 def PenSurvivesPause (cfg : Cfg) : Prop :=
   ∀ (toplevel : Bool) (m0 : VModes) (ops : List Op), validFrom .running ops = some .running →
-    penShown (vtAfter cfg toplevel m0 ops).attrs (ghostAfter cfg toplevel ops).pen = true
+    CapKept cfg toplevel ops →
+    penShown (sysAfter cfg toplevel ops).term.drv.rgbOn (vtAfter cfg toplevel m0 ops).attrs (ghostAfter cfg toplevel ops).pen = true
 
 theorem pen_survives_pause_partial (cfg : Cfg) (toplevel : Bool) (m0 : VModes) (ops : List Op)
-    (hv : validFrom .running ops = some .running) (hnt : PenTriggerFree cfg toplevel ops) :
-    penShown (vtAfter cfg toplevel m0 ops).attrs (ghostAfter cfg toplevel ops).pen = true :=
-  penShown_of _ _ _ (prun_inv cfg ops _ _ .running .running {} (build_pinv toplevel m0) (build_tk toplevel) hv hnt)
+    (hv : validFrom .running ops = some .running) (hck : CapKept cfg toplevel ops) (hnt : PenTriggerFree cfg toplevel ops) :
+    penShown (sysAfter cfg toplevel ops).term.drv.rgbOn (vtAfter cfg toplevel m0 ops).attrs (ghostAfter cfg toplevel ops).pen = true :=
+  penShown_of _ _ _ (prun_inv cfg ops _ _ .running .running {} (build_pinv toplevel m0) (build_tk toplevel) hv hnt hck)
 
 theorem pen_survives_pause (cfg : Cfg) (hr : cfg.resumeResendsPen = true) : PenSurvivesPause cfg :=
-  fun toplevel m0 ops hv =>
-    pen_survives_pause_partial cfg toplevel m0 ops hv (noPenTrigger_of_repaired cfg hr ops _)
+  fun toplevel m0 ops hv hck =>
+    pen_survives_pause_partial cfg toplevel m0 ops hv hck (noPenTrigger_of_repaired cfg hr ops _)
 
-/-- The cached pen *is* the logical pen (so "rendered with the cached pen" and "rendered with the pen asked
-    for" are the same statement). -/
+/-- The cached pen *is* the logical pen, RGB8 refinements included (so "rendered with the cached pen" - what
+    `tickit_term_resume` sends again - and "rendered with the pen asked for" are the same statement). -/
 theorem cached_pen_is_logical (cfg : Cfg) (toplevel : Bool) (m0 : VModes) (ops : List Op) (ph : Phase)
-    (hv : validFrom .running ops = some ph) (hnt : PenTriggerFree cfg toplevel ops) :
+    (hv : validFrom .running ops = some ph) (hck : CapKept cfg toplevel ops) (hnt : PenTriggerFree cfg toplevel ops) :
     (sysAfter cfg toplevel ops).term.pen = (ghostAfter cfg toplevel ops).pen :=
-  (prun_inv cfg ops _ _ .running ph {} (build_pinv toplevel m0) (build_tk toplevel) hv hnt).pen
+  (prun_inv cfg ops _ _ .running ph {} (build_pinv toplevel m0) (build_tk toplevel) hv hnt hck).pen
 
 /-- `setpen bold; pause; resume`: the terminal renders plain, the pen asked for (and cached) is bold; a
     following `setpen bold` writes nothing. -/
 def pausePenHistory : List Op := [.setpen (fun a => if a = .bold then some 1 else none), .pause, .resume]
 
 set_option maxRecDepth 8000 in
-theorem pen_survives_pause_counterexample (k u r : Bool) : ¬ PenSurvivesPause ⟨k, false, u, r⟩ := by
+theorem pen_survives_pause_counterexample (k u r q : Bool) : ¬ PenSurvivesPause ⟨k, false, u, r, q⟩ := by
   intro h
-  have h1 := h false {} pausePenHistory rfl
+  have h1 := h false {} pausePenHistory rfl (by cases k <;> cases u <;> cases r <;> cases q <;> decide)
   revert h1
-  cases k <;> cases u <;> cases r <;> decide
+  cases k <;> cases u <;> cases r <;> cases q <;> decide
 
 set_option maxRecDepth 8000 in
 /-- … and the next `setpen bold` indeed emits no byte on the unrepaired variant. -/
 theorem pause_pen_next_setpen_silent :
-    ((sysAfter ⟨true, false, true, true⟩ false pausePenHistory).step ⟨true, false, true, true⟩
+    ((sysAfter ⟨true, false, true, true, true⟩ false pausePenHistory).step ⟨true, false, true, true, true⟩
       (.setpen (fun a => if a = .bold then some 1 else none))).out = [] := by decide
 
-example : validFrom .running pausePenHistory = some .running ∧ ¬ PenTriggerFree ⟨true, false, true, true⟩ false pausePenHistory := by
+example : validFrom .running pausePenHistory = some .running ∧ ¬ PenTriggerFree ⟨true, false, true, true, true⟩ false pausePenHistory := by
   decide
 
-example : penShown (vtAfter Cfg.repaired true {} sampleHistory).attrs (ghostAfter Cfg.repaired true sampleHistory).pen = true :=
-  pen_survives_pause Cfg.repaired rfl true {} sampleHistory (by decide)
+set_option maxRecDepth 8000 in
+example : penShown (sysAfter Cfg.repaired true sampleHistory).term.drv.rgbOn (vtAfter Cfg.repaired true {} sampleHistory).attrs
+    (ghostAfter Cfg.repaired true sampleHistory).pen = true :=
+  pen_survives_pause Cfg.repaired rfl true {} sampleHistory (by decide) (by decide)
 
 set_option maxRecDepth 8000 in
 /-- The sample history's pen is visible on the terminal after two pause/resume cycles (bold, palette 200). -/
@@ -300,8 +329,161 @@ example : (vtAfter Cfg.repaired false {} sampleHistory).attrs .bold = 1 ∧
 
 /-- The partial theorem is not vacuous on the tree as found: pens with pause/resume are fine as long as the
     pen cached at resume is a default one. -/
-example : PenTriggerFree ⟨false, false, false, false⟩ false
+example : PenTriggerFree ⟨false, false, false, false, false⟩ false
     [.setpen (fun a => if a = .bold then some 1 else none), .setpen PenMap.empty, .pause, .resume,
      .setpen (fun a => if a = .bold then some 1 else none)] := by decide
+
+/-! ### RGB8 colours across pause/resume -/
+
+/-- **resume_reestablishes_pen.** A pause/resume cycle appended to a history that left the terminal running
+    ends with the terminal rendering the pen asked for before the pause - RGB8 refinements included: resume
+    re-establishes the logical pen, and that is what later drawing is rendered with. -/
+theorem resume_reestablishes_pen (cfg : Cfg) (hr : cfg.resumeResendsPen = true) (toplevel : Bool) (m0 : VModes)
+    (ops : List Op) (hv : validFrom .running ops = some .running) (hck : CapKept cfg toplevel ops) :
+    penShown (sysAfter cfg toplevel (ops ++ [.pause, .resume])).term.drv.rgbOn
+      (vtAfter cfg toplevel m0 (ops ++ [.pause, .resume])).attrs (ghostAfter cfg toplevel ops).pen = true := by
+  have hv' : validFrom .running (ops ++ [.pause, .resume]) = some .running := by
+    rw [validFrom_append, hv]; rfl
+  have h := pen_survives_pause cfg hr toplevel m0 _ hv' (capKeptRun_append_pause_resume cfg ops _ hck)
+  have hg : ghostAfter cfg toplevel (ops ++ [.pause, .resume]) = ghostAfter cfg toplevel ops := by
+    unfold ghostAfter; rw [ghostRun_append]; rfl
+  rwa [hg] at h
+
+def fgPen (v : Int) : PenMap := fun a => if a = .fg then some v else none
+
+/-- The terminal reports 24-bit colours; the program draws with palette colour 5 refined to `#112233`, pauses
+    and resumes. -/
+def rgbHistory : List Op :=
+  [.replySgr true true, .setpen (fgPen (rgbEnc 5 0x11 0x22 0x33)), .print [104], .pause, .resume]
+
+/-- … then replaces the colour by the plain palette colour 5, and pauses and resumes again. -/
+def rgbDroppedHistory : List Op := rgbHistory ++ [.setpen (fgPen 5), .pause, .resume]
+
+set_option maxRecDepth 20000 in
+example : validFrom .running rgbDroppedHistory = some .running ∧ CapKept Cfg.repaired false rgbDroppedHistory := by decide
+
+set_option maxRecDepth 20000 in
+/-- The theorem is about something: after the first cycle the terminal renders the 24-bit colour, after the
+    second the palette colour that replaced it (not the stale 24-bit one). -/
+example : (vtAfter Cfg.repaired false {} rgbHistory).attrs .fg = rgbCode 0x11 0x22 0x33 ∧
+    (vtAfter Cfg.repaired false {} rgbDroppedHistory).attrs .fg = 5 := by decide
+
+set_option maxRecDepth 20000 in
+example : penShown (sysAfter Cfg.repaired false rgbDroppedHistory).term.drv.rgbOn
+    (vtAfter Cfg.repaired false {} rgbDroppedHistory).attrs (ghostAfter Cfg.repaired false rgbDroppedHistory).pen = true :=
+  pen_survives_pause Cfg.repaired rfl false {} rgbDroppedHistory (by decide) (by decide)
+
+set_option maxRecDepth 20000 in
+/-- Without the capability the same pen is rendered with its palette index, before and after the cycle. -/
+example : (vtAfter Cfg.repaired false {} (rgbHistory.drop 1)).attrs .fg = 5 := by decide
+
+set_option maxRecDepth 20000 in
+/-- `CapKept` excludes exactly this: the capability is forced on while an RGB8 colour is in use; the terminal
+    goes on rendering the palette index the colour was sent as. -/
+example : ¬ CapKept Cfg.repaired false [.setpen (fgPen (rgbEnc 5 0x11 0x22 0x33)), .ctl (some .capRgb8) 1] ∧
+    CapKept Cfg.repaired false [.ctl (some .capRgb8) 1, .setpen (fgPen (rgbEnc 5 0x11 0x22 0x33)), .ctl (some .capRgb8) 1] := by
+  decide
+
+/-! ### the output buffer: pause, teardown and destruction leave nothing pending -/
+
+/-- The bytes that have reached the output function after building a terminal with an output buffer of `cap`
+    bytes (`0`: none) and performing `ops` (the start-up queries are written before the buffer exists). -/
+def deliveredAfter (cfg : Cfg) (toplevel : Bool) (cap : Nat) (ops : List Op) : Out :=
+  (Sys.build toplevel).2 ++ (Sys.runB cfg (Sys.build toplevel).1 { cap := cap } ops).2.2
+
+/-- **nothing_pending_after_pause.** Whatever the size of the output buffer: when the last call of a history
+    inside the contract that ends paused or torn down returns, the buffer is empty and every byte written so
+    far has reached the output function. -/
+theorem nothing_pending_after_pause (cfg : Cfg) (toplevel : Bool) (cap : Nat) (ops : List Op) (ph : Phase)
+    (hv : validFrom .running ops = some ph) (hne : ph ≠ .running) :
+    (Sys.runB cfg (Sys.build toplevel).1 { cap := cap } ops).2.1.pend = [] ∧
+    deliveredAfter cfg toplevel cap ops = (Sys.build toplevel).2 ++ (Sys.run cfg (Sys.build toplevel).1 ops).2 := by
+  obtain ⟨h1, h2⟩ := runB_nothing_pending cfg ops ph (Sys.build toplevel).1 cap hv hne
+  exact ⟨h1, by unfold deliveredAfter; rw [h2]⟩
+
+/-- **teardown_restores_buffered.** … so the terminal, reading only what has been delivered at that moment, is
+    back in the modes it started in with the default rendition. -/
+theorem teardown_restores_buffered (cfg : Cfg) (hk : cfg.keypadRecorded = true) (hr : cfg.repliesGuarded = true) (hq : cfg.rgb8Guarded = true)
+    (toplevel : Bool) (m0 : VModes) (cap : Nat) (ops : List Op) (ph : Phase) (hm0 : m0.standard = true)
+    (hv : validFrom .running ops = some ph) (hne : ph ≠ .running) :
+    restoredOk (VT.feed ⟨.ground, m0, Attrs.default⟩ (deliveredAfter cfg toplevel cap ops)) m0 = true := by
+  rw [(nothing_pending_after_pause cfg toplevel cap ops ph hv hne).2, feed_append]
+  exact (teardown_restores cfg hk hr hq toplevel m0 ops ph hm0 hv).1 hne
+
+theorem teardown_restores_buffered_partial (cfg : Cfg) (toplevel : Bool) (m0 : VModes) (cap : Nat) (ops : List Op) (ph : Phase)
+    (hm0 : m0.standard = true) (hv : validFrom .running ops = some ph) (hne : ph ≠ .running)
+    (hnt : TriggerFree cfg toplevel ops) :
+    restoredOk (VT.feed ⟨.ground, m0, Attrs.default⟩ (deliveredAfter cfg toplevel cap ops)) m0 = true := by
+  rw [(nothing_pending_after_pause cfg toplevel cap ops ph hv hne).2, feed_append]
+  exact (teardown_restores_partial cfg toplevel m0 ops ph hm0 hv hnt).1 hne
+
+/-- Destruction (of the terminal, or of the toplevel instance while `extra` other holders keep the terminal)
+    ends with a flush: nothing stays in the buffer, whatever it held. -/
+theorem destruction_leaves_nothing_pending (b : OBuf) (s : Sys) (extra : Nat) :
+    (b.call (s.dropOwner extra).2 true).1.pend = [] ∧ (b.call (s.dropOwner extra).2 true).2 = b.pend ++ (s.dropOwner extra).2 :=
+  (OBuf.call_stream b _ true).2.2 rfl
+
+/-- Non-vacuity: with a buffer of 8 bytes, a mode setting stays in the buffer; pause delivers it together with
+    the resets. -/
+example : (Sys.runB Cfg.repaired (Sys.build false).1 { cap := 8 } [.ctl (some .cursorvis) 0]).2.1.pend = visOff ∧
+    (Sys.runB Cfg.repaired (Sys.build false).1 { cap := 8 } [.ctl (some .cursorvis) 0, .pause]).2.2 = visOff ++ visOn ++ sgrReset ∧
+    (Sys.runB Cfg.repaired (Sys.build false).1 { cap := 8 } [.ctl (some .cursorvis) 0, .pause]).2.1.pend = [] := by decide
+
+/-! ### a terminal shared between the toplevel instance and another holder -/
+
+/-- **destroy_shared_restores.** Destroying the toplevel instance restores the terminal whether or not the
+    terminal object survives it (`extra` references held by others): the bytes are those of the exclusive case. -/
+theorem destroy_shared_restores_partial (cfg : Cfg) (m0 : VModes) (ops : List Op) (ph : Phase) (extra : Nat)
+    (hm0 : m0.standard = true) (hv : validFrom .running ops = some ph) (hnt : TriggerFree cfg true ops) :
+    restoredOk (VT.feed (vtAfter cfg true m0 ops) ((sysAfter cfg true ops).dropOwner extra).2) m0 = true := by
+  have ht : (sysAfter cfg true ops).top.isSome = true := by
+    unfold sysAfter; rw [run_top]; rfl
+  rw [dropOwner_top _ extra ht]
+  exact (teardown_restores_partial cfg true m0 ops ph hm0 hv hnt).2
+
+theorem destroy_shared_restores (cfg : Cfg) (hk : cfg.keypadRecorded = true) (hr : cfg.repliesGuarded = true) (hq : cfg.rgb8Guarded = true)
+    (m0 : VModes) (ops : List Op) (ph : Phase) (extra : Nat) (hm0 : m0.standard = true)
+    (hv : validFrom .running ops = some ph) :
+    restoredOk (VT.feed (vtAfter cfg true m0 ops) ((sysAfter cfg true ops).dropOwner extra).2) m0 = true :=
+  destroy_shared_restores_partial cfg m0 ops ph extra hm0 hv (triggerFree_of_repaired cfg hk hr hq true ops)
+
+/-- The terminal that survives is torn down; dropping its last reference later writes nothing more. -/
+theorem shared_terminal_left_torn_down (cfg : Cfg) (ops : List Op) (extra : Nat) (left : Sys)
+    (h : ((sysAfter cfg true ops).dropOwner extra).1 = some left) :
+    left.term.state = .unstarted ∧ left.destroy = [] ∧ left.top = none :=
+  dropOwner_left _ extra (by unfold sysAfter; rw [run_top]; rfl) left h
+
+set_option maxRecDepth 8000 in
+/-- Non-vacuity: after the setup the shared terminal is in the alternate screen with mouse reporting, and
+    destroying the instance while one other reference exists leaves a terminal object (torn down). -/
+example : (vtAfter Cfg.repaired true {} [.tick false]).modes.altscreen = true ∧
+    (vtAfter Cfg.repaired true {} [.tick false]).modes.mouse = 1002 ∧
+    (((sysAfter Cfg.repaired true [.tick false]).dropOwner 1).1.map fun l => l.term.state) = some .unstarted ∧
+    ((sysAfter Cfg.repaired true [.tick false]).dropOwner 0).1.isNone = true := by decide
+
+/-! ### a control set before the terminal's reply to the start-up query arrives -/
+
+/-- **shape_survives_late_reply.** Whatever the driver knows about the terminal so far (in particular before
+    it has learnt that the terminal has DECSCUSR at all): a cursor shape the program sets is what the control
+    reads after the terminal's DECSCUSR report has arrived. -/
+theorem shape_survives_late_reply (cfg : Cfg) (hr : cfg.repliesGuarded = true) (d : XDrv) (v r : Int)
+    (hv : 0 ≤ v ∧ v ≤ 3) :
+    getctlInt (onDecrqssShape cfg (setctlInt cfg d (some .cursorshape) v).1 r) (some .cursorshape) = some v := by
+  have hw : ModeLayout.w_mode_cursorshape = 2 ∧ ModeLayout.w_initialised_cursorshape = 2 := by decide
+  have h1 : wrapU 2 1 = 1 := by decide
+  have h2 : ((wrapU 2 v : Nat) : Int) = v := by
+    rcases (by omega : v = 0 ∨ v = 1 ∨ v = 2 ∨ v = 3) with rfl | rfl | rfl | rfl <;> decide
+  unfold setctlInt
+  simp only [hr, hw.1, hw.2, if_true]
+  split
+  · rename_i hc
+    simp [getctlInt, onDecrqssShape, hr, hc.1, hc.2]
+  · simp [getctlInt, onDecrqssShape, hr, h1, h2]
+
+/-- Non-vacuity, as a history: shape 2 is set before any reply, then the terminal reports shape 1 (and that it
+    blinks); the control still reads 2. -/
+example : getctlInt (sysAfter Cfg.repaired false [.ctl (some .cursorshape) 2, .replyShape 1, .replyMode 12 1]).term.drv
+    (some .cursorshape) = some 2 ∧
+    validFrom .running [.ctl (some .cursorshape) 2, .replyShape 1, .replyMode 12 1] = some .running := by decide
 
 end Tickit.Props.C12
